@@ -13,10 +13,12 @@
    a JSON value stored into a typed field     dec_str / dec_ostr / dec_bool / dec_int / dec_strlist / dec_props / dec_info
      of the report normal form                (Python does not check anything there: a value of another type gives a report
                                                outside the normal form; the model reports it as Err NotNormalForm)
-   json.dumps / json.loads                    MODELLED, not verified: identity on JSON values whose objects have pairwise
-                                              distinct string keys (ensure_ascii escapes every non-ASCII code point incl. lone
-                                              surrogates); a Python dict built from pairs keeps the LAST value of a repeated key
-                                              at the position of its first occurrence: dict_of_pairs.
+   json.dumps / json.loads                    MODELLED, not verified: json_norm.  ensure_ascii escapes every non-ASCII code point as
+                                              \uXXXX, lone surrogates included, and the decoder joins an escaped high surrogate
+                                              that is immediately followed by an escaped low surrogate into one astral character
+                                              (merge_pairs): identity on strings without such a pair.  Objects are assumed to have
+                                              pairwise distinct keys (Python dicts). A Python dict built from pairs keeps the LAST
+                                              value of a repeated key at the position of its first occurrence: dict_of_pairs.
    node.properties / suite._tests (dicts)     dict_of_pairs (identity when the keys are pairwise distinct = unique_keys)
    No proofs in this file. *)
 From Coq Require Import List NArith ZArith Bool.
@@ -99,6 +101,36 @@ Fixpoint json_depth (j : json) : nat :=
   | JArr l => S (fold_right (fun x acc => Nat.max (json_depth x) acc) 0 l)
   | JObj l => S (fold_right (fun kv acc => Nat.max (json_depth (snd kv)) acc) 0 l)
   | _ => 1
+  end.
+
+(* ---------------- the text layer: json.loads (json.dumps v) ---------------- *)
+Definition hi_sur (c : N) : bool := (N.leb 55296 c && N.leb c 56319)%N.     (* D800..DBFF *)
+Definition lo_sur (c : N) : bool := (N.leb 56320 c && N.leb c 57343)%N.     (* DC00..DFFF *)
+Fixpoint merge_pairs (s : str) : str :=
+  match s with
+  | a :: ((b :: r') as r) =>
+      if hi_sur a && lo_sur b then (65536 + (a - 55296) * 1024 + (b - 56320))%N :: merge_pairs r'
+      else a :: merge_pairs r
+  | _ => s
+  end.
+Fixpoint pairfree (s : str) : bool :=
+  match s with
+  | a :: ((b :: _) as r) => negb (hi_sur a && lo_sur b) && pairfree r
+  | _ => true
+  end.
+Fixpoint json_norm (j : json) : json :=
+  match j with
+  | JStr s => JStr (merge_pairs s)
+  | JArr l => JArr (map json_norm l)
+  | JObj l => JObj (map (fun kv => (merge_pairs (fst kv), json_norm (snd kv))) l)
+  | x => x
+  end.
+Fixpoint json_clean (j : json) : bool :=
+  match j with
+  | JStr s => pairfree s
+  | JArr l => forallb json_clean l
+  | JObj l => forallb (fun kv => pairfree (fst kv) && json_clean (snd kv)) l
+  | _ => true
   end.
 
 (* ---------------- association lists (Python dicts in insertion order) ---------------- *)
